@@ -18,6 +18,8 @@ open Finset
 
 noncomputable instance instRScalarReal : RScalar ℝ where
   ofNat n := (n : ℝ)
+
+noncomputable instance instRSqrtReal : RSqrt ℝ where
   sqrt := Real.sqrt
 
 noncomputable instance instCScalarComplex : CScalar ℝ ℂ where
@@ -28,7 +30,7 @@ noncomputable instance instCScalarComplex : CScalar ℝ ℂ where
   im := Complex.im
 
 @[simp] theorem ofNat_real (n : ℕ) : (RScalar.ofNat n : ℝ) = (n : ℝ) := rfl
-@[simp] theorem sqrt_real (x : ℝ) : (RScalar.sqrt x : ℝ) = Real.sqrt x := rfl
+@[simp] theorem sqrt_real (x : ℝ) : (RSqrt.sqrt x : ℝ) = Real.sqrt x := rfl
 @[simp] theorem zero_complex : (CScalar.zero : ℂ) = 0 := rfl
 @[simp] theorem conj_complex (z : ℂ) : (CScalar.conj z : ℂ) = (starRingEnd ℂ) z := rfl
 @[simp] theorem ofReal_complex (r : ℝ) : (CScalar.ofReal r : ℂ) = (r : ℂ) := rfl
